@@ -551,6 +551,19 @@ def rule_G13n(ck):
                 if name in names:
                     for row in loop.iter.elts:
                         out.append(row.elts[names.index(name)] if isinstance(tgt, ast.Tuple) and isinstance(row, (ast.Tuple, ast.List)) else row)
+        if not out and isinstance(fn, ast.FunctionDef):
+            # a parameter of a table-row helper: the values are the literal arguments of its calls ( _fmt("^X", "[0-9a-f]", 16) ... )
+            params = [a.arg for a in fn.args.args]
+            if name in params:
+                i = params.index(name)
+                calls = [c for c in ast.walk(mod.tree) if isinstance(c, ast.Call) and isinstance(c.func, ast.Name) and c.func.id == fn.name]
+                vals = []
+                for c in calls:
+                    v = c.args[i] if i < len(c.args) else next((k.value for k in c.keywords if k.arg == name), None)
+                    if not (isinstance(v, ast.Constant) and isinstance(v.value, str)):
+                        return []
+                    vals.append(v)
+                out = vals
         return out
 
     def patterns(arg, fn):
